@@ -244,9 +244,189 @@ def patched_scheme_cases(rng, n=24, flavour="plain"):
     return cs
 
 
+def _marks(b, trace):
+    """offsets (from the start of the stream) of the `at:<kind>:<remaining>` tags of the model's trace"""
+    m = {"rans": []}
+    for t in trace.split(" ", 1)[1].split(","):
+        if not t.startswith("at:"):
+            continue
+        f = t.split(":")
+        k = f[1]
+        if k == "rans":
+            m["rans"].append(len(b) - int(f[2]))
+        elif k in ("events", "startface"):
+            m[k] = (len(b) - int(f[2]), len(b) - int(f[3]))
+        elif k == "startface_bits":
+            m[k] = f[2]
+        elif k.startswith("method=") or k == "orientations":
+            continue
+        else:
+            m.setdefault(k, []).append(len(b) - int(f[2]))
+    return m
+
+
+def _pack_bits(bits):
+    out = bytearray((len(bits) + 7) // 8)
+    for i, x in enumerate(bits):
+        if x:
+            out[i // 8] |= 1 << (i % 8)
+    return bytes(out)
+
+
+def to_bitstream_21(b, trace, normal_mode=1):
+    """Re-writes a 2.2 Edgebreaker stream (standard or valence traversal, no metadata) in the 2.1 layout, using the
+    field offsets reported by the model: num_new_vertices, connectivity size + split events behind the traversal data
+    with two-bit source edges, u64 bit-region sizes, start faces as a bit region, u32 rANS sizes, the valence header, the
+    mode bytes of the constrained multi-parallelogram and geometric normal schemes.  Returns None when a mark is missing."""
+    m = _marks(b, trace)
+    try:
+        a = m["after_traversal_type"][0]
+        e0, e1 = m["events"]
+        t0 = m["traversal"][0]
+        te = m["traversal_end"][0]
+        s0, s1 = m["startface"]
+        sbits = [c == "1" for c in m.get("startface_bits", "")]
+    except (KeyError, IndexError):
+        return None
+    valence = b[a - 1] == 2
+    # split events: count, (source delta, split delta) pairs, one bit per event -> two bits per event
+    n, p = _read_varint(b, e0)
+    for _ in range(2 * n):
+        _, p = _read_varint(b, p)
+    edge_bits = []
+    for i in range(n):
+        byte = b[p + i // 8] if p + i // 8 < e1 else 0
+        edge_bits += [bool(byte >> (i % 8) & 1), False]
+    events = bytes(b[e0:p]) + _pack_bits(edge_bits)
+
+    def region(lo, hi):
+        """bytes [lo, hi) with the edits that fall inside"""
+        edits = []
+        if lo <= t0 < hi:
+            if valence:
+                edits.append((t0, t0, (1).to_bytes(8, "little") + b"\x07"))
+            else:
+                v, q = _read_varint(b, t0)
+                edits.append((t0, q, v.to_bytes(8, "little")))
+        if lo <= s0 < hi:
+            packed = _pack_bits(sbits)
+            edits.append((s0, s1, len(packed).to_bytes(8, "little") + packed))
+        for r in m["rans"]:
+            if lo <= r < hi:
+                v, q = _read_varint(b, r + 1)
+                edits.append((r + 1, q, v.to_bytes(4, "little")))
+        for o in m.get("valence_contexts", []):
+            if lo <= o < hi:
+                edits.append((o, o, b"\x00\x00"))       # num_split_symbols = 0, EDGEBREAKER_VALENCE_MODE_2_7
+        for o in m.get("constrained_mode", []):
+            if lo <= o < hi:
+                edits.append((o, o, b"\x00"))
+        for o in m.get("normal_mode", []):
+            if lo <= o < hi:
+                edits.append((o, o, bytes([normal_mode])))           # 1 TRIANGLE_AREA, 0 ONE_TRIANGLE
+        edits.sort()
+        out, pos = bytearray(), lo
+        for (x, y, rep) in edits:
+            if x < pos:
+                return None
+            out += b[pos:x] + rep
+            pos = y
+        out += b[pos:hi]
+        return bytes(out)
+
+    trav = region(t0, te)
+    tail = region(te, len(b))
+    if trav is None or tail is None or e1 != t0:
+        return None
+    head = bytes(b[:5]) + bytes([2, 1]) + bytes(b[7:a]) + _varint(0) + bytes(b[a:e0])
+    return head + _varint(len(trav)) + trav + events + tail
+
+
+def transcoded_cases(rng, n=40, flavour="plain"):
+    """valid bitstream-2.1 streams for the branches no shipped file reaches (valence start, bit-region start faces,
+    constrained / geometric-normal mode bytes, portable tex coords with raw rANS sizes): 2.2 streams of the real
+    encoder re-written by `to_bitstream_21`; a further copy is corrupted in one byte"""
+    from vlib import common as C, implside, leanside
+    hd = implside.ensure(["plain"])
+    ops = []
+    topos = [t for t in E.topologies(rng, "quick") if 1 <= len(t[1][1]) <= 600]
+    for i in range(n):
+        name, topo = rng.choice(topos)
+        extra = rng.choice([e for _, e in E.ATT_SETS])
+        g = E.build(rng, topo, extra, pos_dtype=rng.choice(["f32", "f32", "i16"]))
+        toks, _ = E.options(rng, g, speed=rng.choice([0, 1, 2, 3, 5, 7]), submethod=rng.choice([0, 2]),
+                            split=rng.choice([None, 0, 1]))
+        ops.append("enc " + " ".join(t for t in toks if not t.startswith("track")) + " -- " + g.to_text())
+    wd = os.path.join(C.CACHE, "run", f"legacy-transcode-{os.getpid()}")
+    os.makedirs(wd, exist_ok=True)
+    outs = implside.run_ops(hd["plain"], ops, wd, "legacytranscode")
+    streams = [bytes.fromhex(o.split()[1]) for o in outs if o.startswith("ok ")]
+    f = os.path.join(wd, "trace.ops.txt")
+    with open(f, "w") as fh:
+        fh.write("\n".join("ebtrace - " + b.hex() for b in streams) + "\n")
+    rc, traces, _ = leanside.run_driver(f)
+    import shutil
+    shutil.rmtree(wd, ignore_errors=True)
+    cs = []
+    for b, tr in zip(streams, traces):
+        if not tr.startswith("ok "):
+            continue
+        v = to_bitstream_21(b, tr)
+        if v is None:
+            continue
+        kind = "valence" if b[11] == 2 else "standard"
+        # variants only a legacy stream can carry: ONE_TRIANGLE normal prediction, and the legacy schemes at 2.1
+        # (multi-parallelogram for parallelogram; deprecated tex coords for portable ones: same u32 orientation count)
+        meth = [(len(b) - int(t.split(":")[2]), int(t.split(":")[1].split("=")[1]))
+                for t in tr.split(" ", 1)[1].split(",") if t.startswith("at:method=")]
+        variants = []
+        if "at:normal_mode:" in tr:
+            variants.append(("one_triangle", to_bitstream_21(b, tr, normal_mode=0)))
+        for off, mth in meth:
+            if mth in (1, 5) and b[off] == mth:
+                pb = bytearray(b)
+                pb[off] = 2 if mth == 1 else 3
+                variants.append(("multi_parallelogram@2.1" if mth == 1 else "tex_coords_deprecated@2.1",
+                                 to_bitstream_21(bytes(pb), tr)))
+        for vk, vv in variants:
+            if vv is None:
+                continue
+            c = Case(f"dec - {vv.hex()}", expect=_expect, flavour=flavour,
+                     tags=("legacy-transcoded-variant", "legacy-transcoded-variant:" + vk), note=f"2.1 transcoded, {vk}")
+            c.mtag = _mtag("legacy-transcoded-variant:" + vk)
+            cs.append(c)
+        for skip in ("-", "01234"):
+            c = Case(f"dec {skip} {v.hex()}", expect=_expect, flavour=flavour,
+                     tags=("legacy-transcoded", "legacy-transcoded:" + kind), note=f"2.2 stream transcoded to 2.1 skip={skip}")
+            c.mtag = _mtag("legacy-transcoded:" + kind)
+            cs.append(c)
+        # the original 2.2 decode has to be the same geometry: checked by comparing the two implementation outputs
+        ref = Case(f"dec - {b.hex()}", model=False, flavour=flavour, tags=("legacy-transcoded-reference",), nontrivial=False)
+        cs.append(ref)
+
+        def same_geometry(hout, case, ref=ref):
+            r = (ref.hout or "").split(" ", 2)
+            h = hout.split(" ", 2)
+            if len(r) == 3 and r[0] == "ok" and (len(h) < 3 or h[0] != "ok" or h[2] != r[2]):
+                case.tags = case.tags + ("legacy-transcoded:NOT-equivalent(generator)",)
+            elif len(r) == 3 and r[0] == "ok":
+                case.tags = case.tags + ("legacy-transcoded:equivalent-to-2.2-decode",)
+            return None
+        cs[-3].oracle = same_geometry
+        cc = bytearray(v)
+        cc[rng.randrange(11, len(cc))] = rng.randrange(256)
+        c = Case(f"dec - {bytes(cc).hex()}", expect=_expect, flavour=flavour, oracle=_crash_oracle,
+                 tags=("legacy-transcoded-corrupt",), note="transcoded 2.1 stream, one byte corrupted")
+        c.crash_ok = True
+        c.mtag = _mtag("legacy-transcoded-corrupt")
+        cs.append(c)
+    return cs
+
+
 def cases(rng, tier="quick"):
     cs = stream_cases()
     cs += rewrite_cases()
     cs += corrupt_cases(rng, per_stream=40 if tier == "quick" else 400)
     cs += patched_scheme_cases(rng, n=24 if tier == "quick" else 120)
+    cs += transcoded_cases(rng, n=40 if tier == "quick" else 300)
     return cs
